@@ -267,6 +267,53 @@ def minmax (A : Nat → Nat → α) (m n : Nat) (maxIter : Nat) (tol : Tol α) :
     if v == 0 then v else v * (-1)
   ⟨T.get (m + 1) (n + 1 + m) - mmConst A m n, x, y, r.status, r.iters⟩
 
+/-! ### instrumented replay (branch counters for the correspondence run; not used in proofs).
+    Same calls as `solveTableau` / `solvePhase1`; the harness checks that the replay ends in the
+    same basis as the un-instrumented run. -/
+
+structure Stats where
+  pivots : Nat := 0        -- pivoting steps
+  degenerate : Nat := 0    -- pivots whose leaving row has right-hand side 0
+  ties : Nat := 0          -- ratio tests whose first pass left >= 2 rows (lexicographic passes used)
+  colties : Nat := 0       -- entering-column choices with >= 2 columns at the maximal coefficient
+  cleanup : Nat := 0       -- clean-up pivots after Phase 1
+  artleft : Nat := 0       -- artificial variables still basic after the clean-up
+
+def solveTableauStats (tol : Tol α) (skipAux : Bool) : Nat → M α → List Nat → Stats → Res α × Stats
+  | 0, T, b, s => (⟨1, T, b, 0⟩, s)
+  | fuel + 1, T, b, s =>
+    match pivotCol T skipAux tol.fea with
+    | none => (⟨0, T, b, 1⟩, s)
+    | some c =>
+      let D := dropLast T
+      let pr := lexMinRatio D c (T.nc - (T.nr - 1) - 1) tol.piv tol.diff
+      let a0 := minRatioNoTie D c (T.nc - 1) (List.range D.nr) tol.piv tol.diff
+      let stop := T.nc - 1 - (if skipAux then T.nr - 1 else 0)
+      let nmax := ((List.range stop).filter fun j => T.get (T.nr - 1) j == T.get (T.nr - 1) c).length
+      let s := { s with ties := s.ties + (if a0.length ≥ 2 then 1 else 0),
+                        colties := s.colties + (if nmax ≥ 2 then 1 else 0) }
+      if pr.1 then
+        let s := { s with pivots := s.pivots + 1,
+                          degenerate := s.degenerate + (if T.get pr.2 (T.nc - 1) == 0 then 1 else 0) }
+        let (r, s) := solveTableauStats tol skipAux fuel (pivot T c pr.2) (b.set pr.2 c) s
+        ({ r with iters := r.iters + 1 }, s)
+      else (⟨3, T, b, 1⟩, s)
+
+def linprogStats (P : LP α) (maxIter : Nat) (tol : Tol α) : Nat × List Nat × Stats :=
+  let T0 := initTableau P
+  let L := T0.nr - 1
+  let nm := T0.nc - (L + 1)
+  let (r, s) := solveTableauStats tol false maxIter T0 (initBasis P) {}
+  if r.status ≠ 0 then (r.status, r.basis, s)
+  else if tol.fea < r.T.get (r.T.nr - 1) (r.T.nc - 1) then (2, r.basis, s)
+  else
+    let r1 := (List.range L).foldl (cleanupStep tol.piv nm) r
+    let s := { s with cleanup := r1.iters - r.iters,
+                      artleft := (r1.basis.filter fun j => nm ≤ j).length }
+    let T1 := setCriterionRow P.c P.n r1.basis r1.T
+    let (r2, s) := solveTableauStats tol true (maxIter - r1.iters) T1 r1.basis s
+    (r2.status, r2.basis, s)
+
 /-! ### line protocol -/
 
 instance : Zero Float := ⟨0.0⟩
@@ -318,6 +365,18 @@ def handleSc (sc : Sc β) (toks : List String) : String :=
         let res := linprogSimplex P mi tol
         s!"st={res.status} it={res.iters} fun={match res.fn with | some f => sc.shw f | none => "-inf"}" ++
         s!" x={showList sc.shw res.x} lam={showList sc.shw res.lambd} basis={showList toString res.basis} cert={showList sc.shw res.cert}"
+      else "bad-op"
+    | _, _, _, _, _, _, _, _, _, _ => "bad-op"
+  | "lpstat" :: r =>
+    match kvNat r "n", kvNat r "m", kvNat r "k", sc.vec r "c", sc.mat r "Aub", sc.vec r "bub",
+          sc.mat r "Aeq", sc.vec r "beq", kvNat r "maxiter", kvTol sc r with
+    | some n, some m, some k, some c, some Aub, some bub, some Aeq, some beq, some mi, some tol =>
+      if c.length == n && rectangular Aub m n && bub.length == m && rectangular Aeq k n
+          && beq.length == k then
+        let P : LP β := ⟨n, m, k, fnOfList c, fnOfMat Aub, fnOfList bub, fnOfMat Aeq, fnOfList beq⟩
+        let (st, b, s) := linprogStats P mi tol
+        s!"st={st} basis={showList toString b} pivots={s.pivots} degenerate={s.degenerate} ties={s.ties}" ++
+        s!" colties={s.colties} cleanup={s.cleanup} artleft={s.artleft}"
       else "bad-op"
     | _, _, _, _, _, _, _, _, _, _ => "bad-op"
   | "init" :: r =>
